@@ -469,7 +469,10 @@ def tables_stream(ctx):
             ctx.violation('_ADJ_PADDING table', 'is {} but must be {}'.format(
                 dict(d._ADJ_PADDING), ref_p), {'kind': 'tables'})
     except Exception as e:  # noqa
-        ctx.violation('_ADJ tables', 'unreadable: {!r}'.format(e), {'kind': 'tables'})
+        # A private table that no longer exists in that form (renamed, turned into a function, …) is
+        # a broken TIE, not a violation of the property: the behaviour of the operators and of their
+        # adjoints is decided by the operator streams and their oracles (and by `search`).
+        ctx.disagree({'kind': 'tables', 'note': 'private _ADJ tables unreadable'}, repr(e), 'tables')
 
 
 # ---------------------------------------------------------------------------
